@@ -56,7 +56,7 @@ func init() {
 		Rule:      "part 1: exhaustive enumeration (each batch takes every NBatch-th sequence; all batches together cover all 9330 x 6 x 3 cases); part 2: random histories from the registry-biased generator with 45% malformed definitions and invalid policies. Non-trivial: every acceptance case and every failing call checked; distinct = distinct (type sequence, variant, previous policy) resp. (failing op kind, observable state).",
 	})
 	reg("C07", &prop{
-		Pkg: "broker", Test: "TestC07", QuickBatches: 8, ThoroughBatches: 64,
+		Pkg: "broker", Test: "TestC07", Race: true, QuickBatches: 9, ThoroughBatches: 64,
 		QuickTimeoutS: 400, ThoroughTimeoutS: 3000, GoMaxProcs: []int{2, 4, 16}, Parallel: 16,
 		Level: "exploration", DesignRef: "DESIGN.md section 4, C07",
 		Technique: "runtime monitoring against a reference model of registration policies (exhaustive short histories + sampled longer ones), plus concurrent overwrite-vs-Send histories with versioned marker nodes checked for exactly-one-version delivery and linearizability (porcupine)",
@@ -72,5 +72,29 @@ func init() {
 		LevelText: "Fault enumeration by execution: registry states reached by seeded random histories of up to 8 calls (+prologue; 3 types, shared nodes, overwritten node ids whose old objects are still captured by older pipeline versions, removed pipelines) are tracked by a reference model that knows which node OBJECTS each registered pipeline captured. Without faults Broker.Reopen must return nil and every captured object's Reopen count must grow; then for EACH captured object in turn its Reopen returns a unique error and Broker.Reopen must return a non-nil error that carries it (errors.Is or its unique token); objects captured by no registered pipeline may fail without consequence.",
 		LevelNote: "Trusted: reference model and recording nodes. The fault space (which single object fails) is enumerated completely for every generated state; the state space is sampled.",
 		Rule:      "seeded random registry histories; per state: 1 fault-free Reopen + one Reopen per captured object failing + one with all unreferenced objects failing. Non-trivial = state with >=2 captured objects; distinct = distinct history.",
+	})
+}
+
+func init() {
+	reg("C04", &prop{
+		Pkg: "broker", Test: "TestC04", Race: true, QuickBatches: 9, ThoroughBatches: 48,
+		QuickTimeoutS: 400, ThoroughTimeoutS: 3000, GoMaxProcs: []int{2, 4, 16}, Parallel: 6,
+		Level: "exploration", DesignRef: "DESIGN.md section 4, C04",
+		Technique: "Go race detector over phase-aligned concurrent workloads + offline linearizability checking (porcupine v1.3.0) of recorded call/return histories against per-key sequential models, with versioned marker nodes identifying which registration a Send observed",
+		LevelText: "Exploration by execution under the race detector: many short concurrent histories (2..8 actor goroutines x 30..120 random Broker calls over 2 types / 3 pipeline ids / 4 shared node ids with allow/deny/default policies, plus 1..4 senders, barrier start, GOMAXPROCS 2/4/16) are recorded at the API boundary with a logical clock. Every registered pipeline version is rooted at its own marker node, so per Send the set of versions that saw it is known. Oracles: zero library-attributed race reports, no panic/fatal error; per (type,pipeline id) the sub-history {Register, Remove, RemoveAndNodes, Send-read} must be linearizable w.r.t. a register model with the deny policy (exactly-once after registration returned, never after removal returned, 0/1 while overlapping, never two versions); node-id registers (nondeterministic model for RemovePipelineAndNodes side effects) and threshold registers likewise; a sequential epilogue after quiescence is part of the same history; no node object is closed twice.",
+		LevelNote: "Trusted: race detector, porcupine, marker nodes, logical clock (atomic counter; call stamped before, return after). Send is deliberately not modelled as one atomic multi-key read (the property promises per-pipeline atomicity). Interleavings are sampled, not enumerated.",
+		Rule:      "seeded concurrent programs; each history is non-trivial (>=2 actors + >=1 sender); distinct = distinct (configuration, #recorded calls, #successful registrations). Coverage also lists the API entry points that ran concurrently and porcupine verdict counts.",
+	})
+}
+
+func init() {
+	reg("C12", &prop{
+		Pkg: "broker", Test: "TestC12", QuickBatches: 8, ThoroughBatches: 32,
+		QuickTimeoutS: 400, ThoroughTimeoutS: 2400, GoMaxProcs: []int{4, 16, 2}, Parallel: 16,
+		Level: "exploration", DesignRef: "DESIGN.md section 4, C12",
+		Technique: "runtime monitoring with schedule forcing: re-entrant nodes and the library's gated filter wired to the same Broker, a writer forced to be parked on the Broker lock (seen in a goroutine dump) before the callback re-enters, watchdog with blocked-state witness from goroutine dumps, probe calls afterwards",
+		LevelText: "Exploration by execution: every Broker operation that runs node code (Send->Process, Reopen->Reopen, RemoveNode/RemovePipelineAndNodes->Close) x a node that re-enters Send on the same Broker from that callback, x the library's gated.Filter with 0..3 pending groups flushing through the same Broker from Close (removed via RemovePipelineAndNodes and via RemovePipeline+RemoveNode) and from Process (expired groups), each with and without a concurrent RegisterNode that the harness first makes sure is parked on the Broker's lock; plus refused/failed calls of every kind. After each scenario a probe RegisterNode and a probe Send must return ('never permanently locked') and parked writers must get through. 'Bounded time' is restated as: returns before the watchdog unless the goroutine is provably parked forever (same parked state with library frames in two dumps) - only then a violation; otherwise inconclusive.",
+		LevelNote: "Trusted: goroutine dump parsing, watchdog 4 s. The interleaving 'writer queued between outer and inner read lock' is forced, not hoped for; other schedules are sampled by repetition and GOMAXPROCS variation.",
+		Rule:      "fixed scenario list (op x callback x writer x pending groups = 52 scenarios) repeated 2x (quick) / 40x (thorough) across GOMAXPROCS values; distinct = distinct scenario.",
 	})
 }
